@@ -16,7 +16,7 @@ use std::collections::BTreeMap;
 
 pub struct CliRejects;
 
-pub const KINDS: [&str; 25] = [
+pub const KINDS: [&str; 27] = [
     "truncate",
     "truncate",
     "empty",
@@ -34,6 +34,8 @@ pub const KINDS: [&str; 25] = [
     "json:weights_all_negative",
     "both:empty_actions",
     "both:actions_differ",
+    "both:single_action_names_differ",
+    "gambit:interior_payment_breaks_constant_sum",
     "both:chance_weights_differ",
     "both:own_action_forgotten",
     "both:one_action_here_several_there",
@@ -98,6 +100,45 @@ fn rename_one_action(g: &MNode, r: &mut Rng) -> Option<MNode> {
                     info: info.clone(),
                     acts: acts.iter().enumerate().map(|(k, (a, c))| (if hit && k == acts.len() - 1 { format!("{a}zz") } else { a.clone() }, go(c, p, name, which))).collect(),
                 }
+            }
+        }
+    }
+    Some(go(g, p, &name, &mut which))
+}
+
+/// a single-action infoset with two or more nodes: one node offers a differently named action
+fn rename_single_action(g: &MNode, r: &mut Rng) -> Option<MNode> {
+    let mut count: BTreeMap<(usize, String), usize> = BTreeMap::new();
+    fn cnt(n: &MNode, m: &mut BTreeMap<(usize, String), usize>) {
+        match n {
+            MNode::T(_) => {}
+            MNode::C { outs, .. } => outs.iter().for_each(|(_, _, c)| cnt(c, m)),
+            MNode::P { player, info, acts } => {
+                if acts.len() == 1 {
+                    *m.entry((*player, info.clone())).or_insert(0) += 1;
+                }
+                acts.iter().for_each(|(_, c)| cnt(c, m));
+            }
+        }
+    }
+    cnt(g, &mut count);
+    let cands: Vec<((usize, String), usize)> = count.into_iter().filter(|(_, c)| *c >= 2).collect();
+    if cands.is_empty() {
+        return None;
+    }
+    let ((p, name), c) = r.pick(&cands).clone();
+    let mut which = r.below(c as u64) as isize;
+    fn go(n: &MNode, p: usize, name: &str, which: &mut isize) -> MNode {
+        match n {
+            MNode::T(x) => MNode::T(*x),
+            MNode::C { info, outs } => MNode::C { info: info.clone(), outs: outs.iter().map(|(a, w, c)| (a.clone(), *w, go(c, p, name, which))).collect() },
+            MNode::P { player, info, acts } => {
+                let mut hit = false;
+                if *player == p && info == name && acts.len() == 1 {
+                    *which -= 1;
+                    hit = *which == -1;
+                }
+                MNode::P { player: *player, info: info.clone(), acts: acts.iter().map(|(a, c)| (if hit { format!("{a}zz") } else { a.clone() }, go(c, p, name, which))).collect() }
             }
         }
     }
@@ -412,6 +453,32 @@ impl CliRejects {
                 Ok(vec![from_model(empty_first_decision(&case.game).ok_or("not-applicable")?, "file_semantic_empty_actions")])
             }
             "both:actions_differ" => Ok(vec![from_model(rename_one_action(&case.game, r).ok_or("not-applicable")?, "file_semantic_actions_differ_within_infoset")]),
+            "both:single_action_names_differ" => Ok(vec![from_model(rename_single_action(&case.game, r).ok_or("not-applicable")?, "file_semantic_single_action_infoset_with_two_action_names")]),
+            "gambit:interior_payment_breaks_constant_sum" => {
+                if fmt != Format::Gambit {
+                    return Err("not-applicable");
+                }
+                // terminals share outcome numbers across paths; one interior node (not the root)
+                // additionally pays player one far more than the tolerance allows
+                let mut style = EfgStyle::plain();
+                style.share_outcomes = true;
+                let mut rr = Rng::new(case.style_seed);
+                let plain = to_efg(&case.game, &mut rr, &style).text;
+                let lines: Vec<&str> = plain.lines().collect();
+                // node lines start at index 1 (header first); the first node line is the root
+                // (a terminal written BEFORE the node is outside its subtree in this prefix-order
+                // format: the payment then reaches some leaves and not others)
+                let first_terminal = lines.iter().position(|l| l.starts_with("t ")).unwrap_or(usize::MAX);
+                let cand: Vec<usize> = lines.iter().enumerate().filter(|(i, l)| *i > first_terminal && (l.starts_with("p ") || l.starts_with("c ")) && l.ends_with(" 0")).map(|(i, _)| i).collect();
+                if cand.is_empty() {
+                    return Err("not-applicable");
+                }
+                let i = *r.pick(&cand);
+                let pay = crate::cli::write::dec(crate::cli::write::milli(2.0 * case.game.stats().d() + 5.0));
+                let mut out: Vec<String> = lines.iter().map(|s| s.to_string()).collect();
+                out[i] = format!("{} 9999 {{ {pay}, 0 }}", &lines[i][..lines[i].len() - 2]);
+                Ok(vec![one((out.join("\n") + "\n").into_bytes(), "file_semantic_gambit_interior_payment_breaks_constant_sum", Some(vec!["#constant-sum"]))])
+            }
             "both:chance_weights_differ" => Ok(vec![from_model(chance_weights_differ(&case.game, r).ok_or("not-applicable")?, "file_semantic_chance_weights_differ_within_infoset")]),
             "both:own_action_forgotten" => Ok(vec![from_model(forget_own_action(&case.game, r).ok_or("not-applicable")?, "file_semantic_own_action_forgotten")]),
             "both:one_action_here_several_there" => Ok(vec![from_model(single_and_multi(&case.game, r).ok_or("not-applicable")?, "file_semantic_one_action_here_several_there")]),
